@@ -49,7 +49,7 @@ pub fn new_state(shards: usize) -> ShardedActorState {
     ShardedActorState::with_config(cfg)
 }
 
-fn gen_stream_cmds(src: &mut Src) -> Vec<Cmd> {
+pub fn gen_stream_cmds(src: &mut Src) -> Vec<Cmd> {
     let mut g = GenCfg::swarm(src, ALL_FAMS, 4);
     g.expiry = g.expiry && true;
     let b = |s: &str| s.as_bytes().to_vec();
@@ -304,7 +304,7 @@ impl Property for C04 {
     }
 }
 
-async fn dump_prod(state: &ShardedActorState) -> std::collections::BTreeMap<Vec<u8>, String> {
+pub async fn dump_prod(state: &ShardedActorState) -> std::collections::BTreeMap<Vec<u8>, String> {
     // same dump as C03's, for the production time source
     let mut out = std::collections::BTreeMap::new();
     let exec = |parts: Vec<Vec<u8>>| async move { match crate::model::wire::parse_cmd(&parts) { Ok(c) => R::from_resp(&state.execute(&c).await), Err(e) => R::Err(e) } };
